@@ -424,6 +424,13 @@ def run(ctx):
             break
         lab_ = ((choices_ or {}).get("l") or [{}])[0].get("label") if isinstance(choices_, dict) else None
         r3.check(lab_ == want_label, f"choices sheet delimiter[{desc}]", f"the choice's label is {want_label}", w2j3_loc(ctx), why_fail=f"{got_}: label {lab_!r} {msg_[:80]}")
+    # blank rows shift the row numbers that messages cite - also for rows that an earlier conversion already numbered
+    for desc_, ch_rows, want_row in (("blank row inserted above a row numbered earlier", [{"list_name": "l", "name": "a", "label": "A", "__row": 2}, {}, {"list_name": "l", "name": "b", "__row": 3}], 4),
+                                     ("two blank rows above", [{}, {}, {"list_name": "l", "name": "b", "__row": 2}], 4)):
+        got_, msg_, _c, _w, _b = eval_choices_block(ctx, "C13.R3", ch_rows)
+        if got_ is None:
+            break
+        r3.check(got_ == "warning" and f"[row : {want_row}]" in msg_, f"choices sheet row numbers[{desc_}]", f"the unlabeled choice is cited as row {want_row}", w2j3_loc(ctx), why_fail=f"{got_}: {msg_[:120]}")
     # type aliases are resolved on the *dealiased* survey rows: the `type` column is only called `type` after the
     # header pass (a sheet may spell it Type / command), so the alias pass must come after it
     w2j3 = ctx.func("pyxform.xls2json:workbook_to_json", "C13.R3")
@@ -466,6 +473,11 @@ def run(ctx):
     it.reset([])
     out = it.call_function(dt, [[{"type": "image"}, {"type": "text"}, {}]], {}, None, dt.node)
     r4.check(out == [{"type": "photo"}, {"type": "text"}, {}], "dealias_types", "type aliases are replaced, other rows untouched", dt.loc(), why_fail=repr(out))
+    # every reader trims its cells (with clean_text_values = no nothing downstream trims again): the Excel readers' per-cell
+    # cleaners, shared with C12.R2
+    from . import c12 as _c12
+    from .c08 import _take as _take13
+    _take13(r4, _c12.run(ctx), "C12.R2", lambda c: c.startswith("xlsx_clean_cell[") or c.startswith("xls_clean_cell[") or c.startswith("csv_to_dict:strips") or c.startswith("md_to_dict:strips"))
     rules.append(r4)
     rules.append(cell_cleaning_rule(ctx, "C13", "C13.R6"))
     rules.append(column_order_rule(ctx, "C13", "C13.R7"))
